@@ -10,7 +10,7 @@ FAMILIES = ('clayton', 'frank', 'gumbel')
 THETA_FIXED = {
     'clayton': [1e-3, 0.01, 0.1, 0.5, 1.0, 2.0, 4.0, 8.0],
     'gumbel': [1.0, 1 + 1e-6, 1.001, 1.1, 1.5, 2.0, 3.5, 5.0],
-    'frank': [-18.2, -10.0, -5.0, -2.0, -0.5, -0.01, -1e-3, 1e-3, 0.01, 0.5, 2.0, 5.0, 10.0,
+    'frank': [-18.2, -10.0, -5.0, -2.0, -0.5, -0.01, -1e-3, -2e-4, -1e-6, 1e-6, 2e-4, 1e-3, 0.01, 0.5, 2.0, 5.0, 10.0,
               15.0, 18.2],
 }
 
@@ -25,7 +25,7 @@ def random_theta(family, rng):
         return float(rng.choice([rng.uniform(1e-3, 8.0), 10 ** rng.uniform(-3, np.log10(8.0))]))
     if family == 'gumbel':
         return float(rng.choice([rng.uniform(1.0, 5.0), 1 + 10 ** rng.uniform(-6, np.log10(4.0))]))
-    mag = float(rng.choice([rng.uniform(1e-3, 18.2), 10 ** rng.uniform(-3, np.log10(18.2))]))
+    mag = float(rng.choice([rng.uniform(1e-3, 18.2), 10 ** rng.uniform(-6, np.log10(18.2))]))
     return mag if rng.random() < 0.5 else -mag
 
 
